@@ -390,19 +390,24 @@ func (p *Program) onlyWrittenInInit(g *ssa.Global) bool {
 
 // checkSingleWriter: every call of (*sync/atomic.Value).Store whose receiver is the field Type.field
 // sits in function writer of package pkg, and writer's contract has an ensures clause labelled label.
-func (p *Program) checkSingleWriter(pkg, writer, field, label string) string {
-	fc := p.cs.Funcs[pkg+"."+writer]
-	if fc == nil {
-		return "no contract for " + writer
-	}
-	found := false
-	for _, e := range fc.Ensures {
-		if e.Label == label {
-			found = true
+func (p *Program) checkSingleWriter(pkg, writers, field, label string) string {
+	// several writers (a constructor and a setter) are given separated by commas: each proves the clause
+	isWriter := map[string]bool{}
+	for _, writer := range strings.Split(writers, ",") {
+		isWriter[writer] = true
+		fc := p.cs.Funcs[pkg+"."+writer]
+		if fc == nil {
+			return "no contract for " + writer
 		}
-	}
-	if !found {
-		return writer + " has no ensures clause @" + label
+		found := false
+		for _, e := range fc.Ensures {
+			if e.Label == label {
+				found = true
+			}
+		}
+		if !found {
+			return writer + " has no ensures clause @" + label
+		}
 	}
 	i := strings.LastIndex(field, ".")
 	if i < 0 {
@@ -440,7 +445,7 @@ func (p *Program) checkSingleWriter(pkg, writer, field, label string) string {
 				for root.Parent() != nil {
 					root = root.Parent()
 				}
-				if root.Pkg == nil || root.Pkg.Pkg.Path() != pkg || funcRelName(fn) != writer {
+				if root.Pkg == nil || root.Pkg.Pkg.Path() != pkg || !isWriter[funcRelName(fn)] {
 					return "also written in " + fn.String()
 				}
 			}
